@@ -34,7 +34,14 @@ pub fn resolve(
 		{
 			Expression::Builtin(GeneratorBuiltin::Format { arguments })
 		}
-		Builtin::File => file(location),
+		Builtin::File =>
+		{
+			// The call has a view as value, not the array that a literal is.
+			Expression::Autocoerce {
+				expression: Box::new(file(location)),
+				coerced_type: ValueType::for_string_slice(),
+			}
+		}
 		Builtin::Line => line(location),
 		Builtin::Print => write(Fd::Stdout, arguments),
 		Builtin::Eprint => write(Fd::Stderr, arguments),
